@@ -1,8 +1,17 @@
 (* C16 -- proofs about the renderer model Sys/RenderFilter.v (tables from Gen/RenderFilter.v). *)
 From Coq Require Import List NArith ZArith Bool Lia String Ascii.
-From NB Require Import Base.Res Base.Json Base.PyStr Diff.DiffFormat Diff.Patch Diff.Codec Diff.Wf
-     Sys.RenderTypes Gen.RenderFilter Sys.RenderFilter.
-Import ListNotations.
+From NB Require Import Base.Res.
+From NB Require Import Base.Json.
+From NB Require Import Base.PyStr.
+From NB Require Import Diff.DiffFormat.
+From NB Require Import Diff.Patch.
+From NB Require Import Diff.Codec.
+From NB Require Import Diff.Wf.
+From NB Require Import Sys.RenderTypes.
+From NB Require Import Gen.RenderFilter.
+From NB Require Import Sys.RenderFilter..
+From NB Require Import Import.
+From NB Require Import ListNotations.
 
 (* ====================================================================================================== *)
 (* 1. Colour constants, command lines, renderer selection (finite)                                          *)
@@ -314,25 +323,6 @@ Definition entry_wf_obj (rec : json -> list dentry -> bool) (kv : list (pystr * 
       end
   end.
 
-Definition wf_seq_of (rec : json -> list dentry -> bool) (items : list json) :=
-  fix wf_seq (c : nat) (add_ok : bool) (d : list dentry) {struct d} : bool :=
-    match d with
-    | [] => true
-    | DAddRange (KI k) (VList l) :: r =>
-        negb (Nat.eqb (List.length l) 0) && Nat.leb k (List.length items)
-        && (Nat.ltb c k || (Nat.eqb c k && add_ok)) && wf_seq k false r
-    | DRemoveRange (KI k) len :: r =>
-        negb (Nat.eqb len 0) && Nat.leb c k && Nat.leb (k + len) (List.length items)
-        && wf_seq (k + len) true r
-    | DPatch (KI k) dd :: r =>
-        Nat.leb c k &&
-        match nth_error items k with
-        | Some x => is_container x && negb (Nat.eqb (List.length dd) 0) && rec x dd
-        | None => false
-        end && wf_seq (k + 1) true r
-    | _ => false
-    end.
-
 Definition wf_map_of (rec : json -> list dentry -> bool) (kv : list (pystr * json)) :=
   fix wf_map (prev : option pystr) (d : list dentry) {struct d} : bool :=
     match d with
@@ -356,31 +346,38 @@ Definition wf_map_of (rec : json -> list dentry -> bool) (kv : list (pystr * jso
         end
     end.
 
-Lemma wf_diff_arr f items d : wf_diff (S f) (JArr items) d = wf_seq_of (wf_diff f) items 0 true d.
-Proof. reflexivity. Qed.
 Lemma wf_diff_obj f kv d : wf_diff (S f) (JObj kv) d = wf_map_of (wf_diff f) kv None d.
 Proof. reflexivity. Qed.
 
-Lemma wf_seq_entries rec items d : forall c0 ok,
-  wf_seq_of rec items c0 ok d = true -> forall e, In e d -> entry_wf_arr rec items e = true.
+Lemma swf_entries n vl_ok patch_ok d : forall c0 ok,
+  swf n vl_ok patch_ok c0 ok d = true ->
+  forall e, In e d ->
+  match e with
+  | DAddRange (KI _) vs => vl_ok vs = true
+  | DRemoveRange (KI _) _ => True
+  | DPatch (KI k) dd => patch_ok k dd = true
+  | _ => False
+  end.
 Proof.
   induction d as [|e d IH]; intros c0 ok H x I; [destruct I|].
   destruct I as [<-|I].
-  - destruct e as [k v|k|k v|k vs|k len|k dd]; try discriminate; destruct k as [k|k]; try (destruct vs); simpl in H; try discriminate.
-    + reflexivity.
-    + reflexivity.
-    + simpl. apply andb_true_iff in H as [H _]. apply andb_true_iff in H as [_ H].
-      destruct (nth_error items k); try discriminate.
-      apply andb_true_iff in H as [_ H]. exact H.
-  - destruct e as [k v|k|k v|k vs|k len|k dd]; try discriminate; destruct k as [k|k]; try (destruct vs); simpl in H; try discriminate.
-    + apply andb_true_iff in H as [_ H]. eapply IH; eauto.
-    + apply andb_true_iff in H as [_ H]. eapply IH; eauto.
-    + apply andb_true_iff in H as [_ H]. eapply IH; eauto.
+  - destruct e as [k v|k|k v|k vs|k len|k dd]; try discriminate; destruct k as [k|k]; simpl in H; try discriminate.
+    + repeat (apply andb_true_iff in H as [H _]). exact H.
+    + exact I.
+    + apply andb_true_iff in H as [H _]. apply andb_true_iff in H as [_ H]. exact H.
+  - destruct e as [k v|k|k v|k vs|k len|k dd]; try discriminate; destruct k as [k|k]; simpl in H; try discriminate;
+      apply andb_true_iff in H as [_ H]; eapply IH; eauto.
 Qed.
 
 Lemma wf_arr_entries f items d :
   wf_diff (S f) (JArr items) d = true -> forall e, In e d -> entry_wf_arr (wf_diff f) items e = true.
-Proof. rewrite wf_diff_arr. apply wf_seq_entries. Qed.
+Proof.
+  intros H e I. cbn [wf_diff] in H. pose proof (swf_entries _ _ _ _ _ _ H e I) as W.
+  unfold entry_wf_arr. destruct e as [k v|k|k v|k vs|k len|k dd]; try contradiction; destruct k as [k|k]; try contradiction.
+  - destruct vs; [reflexivity | discriminate].
+  - reflexivity.
+  - destruct (nth_error items k); try discriminate. apply andb_true_iff in W as [_ W]. exact W.
+Qed.
 
 Lemma wf_map_entries rec kv d : forall prev,
   wf_map_of rec kv prev d = true -> forall e, In e d -> entry_wf_obj rec kv e = true.
@@ -432,7 +429,7 @@ Proof. unfold sort_by_dkey. rewrite sort_by_dkey_in_gen. simpl. tauto. Qed.
 (* assumption of the safety theorem, stated as a premise: patching a string with a well-formed line diff succeeds
    (this is the totality half of C02/C11's round trip for strings, proved there; here it is a hypothesis) *)
 Definition string_patch_total : Prop :=
-  forall s d, wf_lines (splitlines s) 0 true d = true -> exists b, patch (ddepth d + 4) (JStr s) d = Ok (JStr b).
+  forall s d, wf_lines (splitlines s) d = true -> exists b, patch (ddepth d + 4) (JStr s) d = Ok (JStr b).
 
 Definition tools_ok (c : cfg) (O : list key -> nat) : Prop := forall p, exists evs, render_tool c (O p) = Ok evs.
 
